@@ -17,6 +17,8 @@ func init() {
 }
 
 func runC01(r *engine.Run) {
+	r.Rule("ORDER-KEY-save", "see C04: the save writes every pending change, keyed by the hash of the node written beside it, in one MultiPutNode outside any loop (a batched writer that resets only one of the two slices files later nodes under keys that are not their hash: the state read back from the store loses values)")
+	r.Rule("WHO-readonly", "see C06: a lookup through the transaction cache - the node cache every trie lookup goes through - stores nothing into the cache's pending map (lookups hold only read locks and run in parallel: a memoising lookup is a concurrent map write)")
 	r.Rule("DOM-adopt", "see C03: a merge reports success only where this trie's root is the merged root (installed, or already equal): a fast path that returns nil before the deletes are replayed and the root moved - for a layer that created no node because it deleted every entry - leaves the lower trie answering with the dead pairs")
 	r.Rule("EXH-U", "every node-kind dispatch of the trie operations (lookup, insert at node / at exhausted path, delete at node and its two inner dispatches, delete at exhausted path, iterate) has an arm for each of *LeafNode, *FullNode, *ExtensionNode; no arm of a concrete kind consists of a panic; a panicking default is tolerated only when the dispatched value cannot be a nil interface (it is not the result of a repo function that can return (nil, ..., nil))")
 	r.Rule("DOM-size", "in Insert, the write lock, insert, insertLeaf and setRoot are reached only when len(marshalled value) > MPTMaxAllowableNodeSize tested false and len == 0 tested false; a nil value and an empty encoding route to Delete(path); the value's MarshalMsg is called only where the value tested non-nil, each route to Delete is taken only where the value tested nil or its encoding tested empty, and setRoot stores its argument into the root field")
@@ -78,6 +80,8 @@ func runC01(r *engine.Run) {
 	freshPathBuf(r, "FRESH-pathbuf")
 	domCancel(r)
 	domAdopt(r, "DOM-adopt")
+	orderKeySave(r)
+	whoReadOnly(r, "WHO-readonly")
 }
 
 var nodeKinds = []string{"ExtensionNode", "FullNode", "LeafNode"}
